@@ -6,6 +6,7 @@ require (
 	github.com/dolthub/dolt/go v0.0.0
 	github.com/dolthub/go-mysql-server v0.20.1-0.20260819200441-c0b22e21d5fc
 	github.com/dolthub/vitess v0.0.0-20260819175407-19559ab533b7
+	github.com/golang/snappy v0.0.4
 )
 
 require (
@@ -76,7 +77,6 @@ require (
 	github.com/gocraft/dbr/v2 v2.7.2 // indirect
 	github.com/gofrs/flock v0.8.1 // indirect
 	github.com/golang-jwt/jwt/v5 v5.3.0 // indirect
-	github.com/golang/snappy v0.0.4 // indirect
 	github.com/google/btree v1.1.2 // indirect
 	github.com/google/s2a-go v0.1.9 // indirect
 	github.com/google/uuid v1.6.0 // indirect
